@@ -14,7 +14,8 @@
      Ceil, which can fall short of the exact amount by less than 1/2 * 10^-36 token per bucket step (C03_amount1_round_up_refuted is the
      witness; the theorems carry the slack explicitly as in_slack).
    * per-step lemmas: C03_step_exact_in, C03_step_exact_out (amount in >=, amount out <=, fee >=), C03_fee_ge_ideal, the four
-     C03_next_price_* direction lemmas.
+     C03_next_price_* direction lemmas, and the two-sided per-step error bound C03_step_error_bounded_in/out (amount in < exact + 1 token
+     + tiny, amount out > exact - 10^-18 token - tiny).
    * "whenever a swap executes, its result equals the estimate": C03_estimate_eq_execute_in/out; the estimate cannot touch state (it
      is a function of the state returning a number; for the implementation the driver compares store digests).  The converse is
      refuted (C03_estimate_converse_refuted), as DESIGN.md says it must be.
@@ -24,7 +25,7 @@ From Coq Require Import ZArith QArith List Bool.
 Import ListNotations.
 From Osmo Require Import Base.DecModel Gen.CL_consts CL.TickMath CL.CLMath CL.CLPool CL.CLSwap CL.CLStep CL.Ideal.
 From Osmo Require Import C07.Base C07.LP C07.SwapDir C07.Swap C07.Proofs.
-From Osmo Require Import C03.Rounding C03.Steps C03.Path C03.Whole C03.Estimate.
+From Osmo Require Import C03.Rounding C03.Steps C03.ErrorBound C03.Path C03.Whole C03.Estimate.
 Open Scope Z_scope.
 
 Definition reach (sp spf sc t0 : Z) (users : list (Z * Z)) (ops : list op) : state :=
@@ -50,6 +51,21 @@ Theorem C03_step_exact_out : forall zfo spf cur target liq remaining next aout a
   out_within zfo liq cur next aout /\ in_covers zfo spf liq cur next (ain + fee).
 Proof. exact in_given_out_step. Qed.
 Print Assumptions C03_step_exact_out.
+
+(* ... and only by a bounded rounding amount: the amount in is less than one token (+ 10^36/(a*b) + 1/min(a,b) units of the 36th
+   decimal, i.e. < 10^-24 token for sqrt prices >= 10^-6) above the exact amount of the move, the amount out less than 10^-18 token
+   (+ the same tiny term) below it; an exact-out step pays out either that or exactly what is still requested *)
+Theorem C03_step_error_bounded_in : forall zfo spf cur target liq remaining next ain aout fee,
+  compute_out_given_in zfo spf cur target liq remaining = Some (next, ain, aout, fee) ->
+  0 <= liq -> 0 < cur -> 0 < next ->
+  in_at_most zfo liq cur next ain /\ out_at_least zfo liq cur next aout.
+Proof. exact out_given_in_step_error. Qed.
+Theorem C03_step_error_bounded_out : forall zfo spf cur target liq remaining next aout ain fee,
+  compute_in_given_out zfo spf cur target liq remaining = Some (next, aout, ain, fee) ->
+  0 <= liq -> 0 < cur -> 0 < next -> 0 <= remaining ->
+  in_at_most zfo liq cur next ain /\ (aout = remaining \/ out_at_least zfo liq cur next aout).
+Proof. exact in_given_out_step_error. Qed.
+Print Assumptions C03_step_error_bounded_in. Print Assumptions C03_step_error_bounded_out.
 
 (* the spread charge on an amount in is at least amount * f / (1 - f) *)
 Theorem C03_fee_ge_ideal : forall ain spf fee, 0 <= ain -> 0 <= spf < P18 ->
